@@ -13,10 +13,10 @@
     The file system refuses names longer than NAME_MAX = 255 bytes.
     base32 comes from lib/BaseN.v.  Bytes and characters are [N].
 
-    Defect switch [fl] of the FS keystore's Delete: [true] = what the code does
-    (os.Remove's error for an absent key is returned, while MemKeystore.Delete
-    returns nil: finding C40-1); [false] = Delete of an absent key succeeds, as
-    in the in-memory keystore.
+    Defect switch [fl] of Delete on an ABSENT key: [true] = what the code did
+    (FSKeystore returns os.Remove's not-exist error, MemKeystore returns nil: the
+    two disagree, finding C40-1); [false] = the repaired code: both keystores
+    return ErrNoSuchKey.
     No proofs in this file. *)
 From Coq Require Import List NArith Bool String Ascii.
 From V Require Import lib.Verdict lib.BaseN.
@@ -116,7 +116,7 @@ Definition fs_step (fl : bool) (d : dir) (o : op) : dir * res :=
       if too_long f then (d, ROther) else
       match dlookup f d with
       | Some _ => (dremove f d, ROk)
-      | None => (d, if fl then ROther else ROk)          (* defect C40-1 *)
+      | None => (d, if fl then ROther else RNoKey)       (* defect C40-1 / ErrNoSuchKey *)
       end
   end.
 
@@ -145,7 +145,7 @@ Fixpoint mremove (n : name) (m : mem) : mem :=
   | [] => []
   | (n', k) :: r => if bytes_eqb n n' then r else (n', k) :: mremove n r
   end.
-Definition mem_step (m : mem) (o : op) : mem * res :=
+Definition mem_step (fl : bool) (m : mem) (o : op) : mem * res :=
   match o with
   | Lst => (m, RList (map fst m))
   | Put n k =>
@@ -153,12 +153,16 @@ Definition mem_step (m : mem) (o : op) : mem * res :=
       match mlookup n m with Some _ => (m, RExists) | None => (m ++ [(n, k)], ROk) end
   | Get n => match mlookup n m with Some k => (m, RKey k) | None => (m, RNoKey) end
   | Has n => match mlookup n m with Some _ => (m, RBool true) | None => (m, RBool false) end
-  | Del n => (mremove n m, ROk)
+  | Del n =>
+      match mlookup n m with
+      | Some _ => (mremove n m, ROk)
+      | None => (m, if fl then ROk else RNoKey)      (* defect C40-1 / ErrNoSuchKey *)
+      end
   end.
-Fixpoint mem_run (m : mem) (ops : list op) : mem * list res :=
+Fixpoint mem_run (fl : bool) (m : mem) (ops : list op) : mem * list res :=
   match ops with
   | [] => (m, [])
-  | o :: r => let (m', x) := mem_step m o in let (m'', xs) := mem_run m' r in (m'', x :: xs)
+  | o :: r => let (m', x) := mem_step fl m o in let (m'', xs) := mem_run fl m' r in (m'', x :: xs)
   end.
 
 (** ---------- specification ---------- *)
@@ -207,17 +211,17 @@ Definition check_case (c : case) : verdict :=
   | COps d0 ops fs_res mem_res final outside_ok =>
       let '(d_off, r_off) := fs_run false d0 ops in
       let '(d_on, r_on) := fs_run true d0 ops in
-      let '(_, r_mem) := mem_run [] ops in
-      let eq_off := list_eqb res_eqb r_off fs_res && dir_eqb d_off final in
-      let eq_on := list_eqb res_eqb r_on fs_res && dir_eqb d_on final in
-      let mem_ok := list_eqb res_eqb r_mem mem_res in
+      let '(_, m_off) := mem_run false [] ops in
+      let '(_, m_on) := mem_run true [] ops in
+      let eq_off := list_eqb res_eqb r_off fs_res && dir_eqb d_off final && list_eqb res_eqb m_off mem_res in
+      let eq_on := list_eqb res_eqb r_on fs_res && dir_eqb d_on final && list_eqb res_eqb m_on mem_res in
       let confined := outside_ok && (negb (is_nil d0) || forallb (fun e => safe_component (fst e)) final) in
       (* the property speaks about a keystore directory that holds nothing but the keystore's own files *)
       if is_nil d0 && valid_ops ops then
         let agree := list_eqb res_eqb fs_res mem_res in
         let spec_ok := agree && confined in
-        if spec_ok then verdict_of (mem_ok && (eq_off || eq_on)) true
-        else if mem_ok && eq_on && negb eq_off && confined && list_eqb res_eqb r_off mem_res then VKnown 1
+        if spec_ok then verdict_of (eq_off || eq_on) true
+        else if eq_on && negb eq_off && confined && list_eqb res_eqb r_off m_off then VKnown 1
         else VSpecFail
-      else if confined then verdict_of (mem_ok && (eq_off || eq_on)) true else VSpecFail
+      else if confined then verdict_of (eq_off || eq_on) true else VSpecFail
   end.
